@@ -25,8 +25,8 @@ PROP = dict(
         quick=[
             job("shachain", "^TestVerifC06Exhaustive$", ["TestVerifC06Exhaustive"], 3, shards=2,
                 env=dict(VERIF_C06_N=4096)),
-            job("shachain", "^TestVerifC06Structural$", ["TestVerifC06Structural"], 4000, shards=4),
-            job("lnwallet", "^TestVerifC06Release$", ["TestVerifC06Release"], 40, shards=6, env=dict(VERIF_STEPS=40)),
+            job("shachain", "^TestVerifC06Structural$", ["TestVerifC06Structural"], 10000, shards=4),
+            job("lnwallet", "^TestVerifC06Release$", ["TestVerifC06Release"], 80, shards=6, env=dict(VERIF_STEPS=40)),
         ],
         thorough=[
             job("shachain", "^TestVerifC06Exhaustive$", ["TestVerifC06Exhaustive"], 2, shards=8,
